@@ -12,4 +12,18 @@ TEXT = {
         "buffer lengths 0..17) and &str restricts the implementation side to valid UTF-8."),
   technique="Lean 4 proof (induction, kernel-evaluated table equalities) + regenerated constants + differential correspondence"),
 }
+TEXT["C17"] = dict(
+  text=("Machine-checked Lean 4 theorems about a complete model of the WDBC format as the crate reads and writes it: "
+        "for every schema (all field types, arrays, any key position) and every well-typed table, parse(write t) "
+        "resolves back to exactly t; written size = 20 + records x record size + string block; the string block is the "
+        "NUL-terminated concatenation of a duplicate-free list (empty string + the table's strings); sequential-cursor "
+        "decoding equals seek-based decoding of record i at i x record size for every byte string (eager = lazy = mmap "
+        "= parallel); hashed key lookups are sound and complete, and the sorted key map is sorted and consistent. The "
+        "model is tied to the code by differential execution both ways (Rust-written bytes parsed by the model, model "
+        "written bytes compared byte-for-byte, malformed files by outcome class) and by a property oracle over all "
+        "access paths of the real crate."),
+  note=("Lean kernel, axioms propext/Quot.sound/Classical.choice at most; model hand-written from the Rust; tie is "
+        "sampling; std binary search and rayon are trusted; WDB2/WDB5 not modelled. Four genuine defects found by this "
+        "check were repaired in /repo (see known_findings.jsonl 'fixed' entries)."),
+  technique="Lean 4 proof (round-trip by induction, interning invariant) + two-way differential correspondence")
 NA = {}
